@@ -11,9 +11,7 @@ use crate::internals::hash::block::{
     block_hash, block_size, BlockHashSize, BlockHashSizes, ConstrainedBlockHashSize,
     ConstrainedBlockHashSizes,
 };
-use crate::internals::hash::parser_state::{
-    BlockHashParseState, ParseError, ParseErrorKind, ParseErrorOrigin,
-};
+use crate::internals::hash::parser_state::ParseError;
 use crate::internals::hash::{fuzzy_norm_type, fuzzy_raw_type, FuzzyHashData};
 use crate::internals::intrinsics::unlikely;
 use crate::internals::macros::invariant;
@@ -969,24 +967,11 @@ where
         str: &[u8],
         index: &mut usize,
     ) -> Result<Self, ParseError> {
-        use crate::internals::hash::{
-            algorithms, hash_from_bytes_with_last_index_internal_template,
-        };
-        use crate::internals::hash_dual::algorithms::update_rle_block;
-        let mut fuzzy = Self::new();
-        hash_from_bytes_with_last_index_internal_template! {
-            str, index, true,
-            fuzzy.norm_hash.log_blocksize,
-            { let mut  rle_offset = 0; },
-            #[inline(always)] |pos, len| rle_offset = update_rle_block(
-                &mut fuzzy.rle_block1, rle_offset, pos + block_hash::MAX_SEQUENCE_SIZE - 1, len),
-            fuzzy.norm_hash.blockhash1, fuzzy.norm_hash.len_blockhash1,
-            { let mut  rle_offset = 0; },
-            #[inline(always)] |pos, len| rle_offset = update_rle_block(
-                &mut fuzzy.rle_block2, rle_offset, pos + block_hash::MAX_SEQUENCE_SIZE - 1, len),
-            fuzzy.norm_hash.blockhash2, fuzzy.norm_hash.len_blockhash2
-        }
-        Ok(fuzzy)
+        // Parse as the raw variant first: the capacity of a dual fuzzy hash is
+        // that of the raw fuzzy hash it reconstructs, so a block hash must be
+        // rejected by its raw length (not by its normalized length).
+        let raw = <fuzzy_raw_type!(S1, S2)>::from_bytes_with_last_index(str, index)?;
+        Ok(Self::from_raw_form(&raw))
     }
 
     /// Parse a fuzzy hash from given bytes (a slice of [`u8`])
